@@ -230,6 +230,9 @@ func PanicFrame(lines []string) string {
 	return first
 }
 
+// PanicClass normalises a panic message into a failure-class component.
+func PanicClass(msg string) string { return panicClass(msg) }
+
 func panicClass(msg string) string {
 	// drop numbers so that "index out of range [3] with length 3" and "[5] with length 5" fall together
 	var b strings.Builder
